@@ -5,6 +5,7 @@ from props import wsmodel as W
 
 ID = "C01"
 PROPERTIES_V = "theories/Properties/C01X.v"
+EXTRA_PROPERTIES_V = ["theories/Properties/C01W.v"]   # two-workspace world: cross-workspace copies, frame across workspaces
 CHUNK = 8  # histories are heavy terms (a dump of tree and file after every op): small case files, evaluated in parallel
 CASE_IMPORTS = "From GV Require Import Prelude.Base Model.WsX Model.WsXCheck."
 ALLOWED_AXIOMS: list = []
@@ -96,6 +97,11 @@ def oracle_ext(case, obs):
 def _classify_ext_diff(case, obs, diffs):
     """recorded defect 'stale-type-reused': a data type identifier supplied by the caller returns with another primitive type
     while the dead type's node is still in the file (the Types registry is swept only by ws.types / the next removal)"""
+    if all("fields" in x and set(x["fields"]) <= {"metadata"} for x in diffs) and any(o["op"] == "copy" for o in case["ops"]) \
+            and any(o["op"] == "meta" for o in case["ops"]):
+        # recorded defect (C12 copy-shares-metadata-dict): a copy shares its source's metadata dict; assigning metadata on one
+        # of them updates the dict in memory for both but is written for that one only
+        return "copy-shares-metadata-dict"
     type_fields = {"cls", "primitive", "type_name", "values", "type"}
     if all("fields" in x and set(x["fields"]) <= type_fields for x in diffs):
         uids = {x["uid"] for x in diffs}
